@@ -99,11 +99,13 @@ class Ctx:
         return sum(1 for o in self.obligations if o.rule == rule)
 
     def check_minimums(self) -> None:
+        """A rule that matched fewer instances than confirmed by hand cannot be trusted to have looked at everything:
+        recorded as an analysis error (exit 2 unless some rule reports a VIOLATION, which wins)."""
         for rule, mn in self.minimums.items():
             c = self.count(rule)
-            if c < mn and not self.analysis_errors:
-                raise AnalysisError(
-                    f"rule {self.prop}.{rule} matched {c} instance(s), fewer than the {mn} confirmed by hand "
+            if c < mn and not any(e.startswith(f"minimum:{rule}") for e in self.analysis_errors):
+                self.analysis_errors.append(
+                    f"minimum:{rule}: rule {self.prop}.{rule} matched {c} instance(s), fewer than the {mn} confirmed by hand "
                     f"on the reference tree: the code changed shape beyond what the rule recognises "
                     f"(a rule matching nothing would pass vacuously)")
 
